@@ -83,6 +83,8 @@ def parse_script(tok):
     for t in tok.split(","):
         if t in ("ms", "is", "nt"):
             res.append((t,))
+        elif t[:2] == "nx":
+            res.append(("nx", int(t[2:])))
         elif t[:2] in ("us", "uh", "mu", "um", "iv"):
             res.append((t[:2], int(t[2:])))
         elif t[0] == "s":
@@ -212,6 +214,12 @@ class SubjRef:
         elif k == "nt":
             if fuel > 0:
                 self.notify(s, fuel - 1, a)
+        elif k == "nx":
+            # the callback notifies ANOTHER Subject of the same signature with the values it received: a complete round of
+            # that Subject, nested inside this one (the two Subjects share nothing)
+            other = self.subj.get(act[1])
+            if fuel > 0 and other is not None and other.alive:
+                self.notify(other, fuel - 1, a)
 
     def freed(self):
         ids = sorted(o.id for o in self.removed)
@@ -572,6 +580,41 @@ def gen_c10_random(rng, sig, maxobs, maxscript):
     return b.case
 
 
+def gen_cross_case(rng, sig):
+    """two Subjects of the same signature whose callbacks notify each other (`nx<sid>`): each round of one Subject contains
+    complete rounds of the other; whatever one Subject keeps per round must not be shared with the other"""
+    b = CaseBuilder(sig)
+    b.emit("subj lib 0 -")
+    b.emit("subj new 1")
+    b.emit("subj new 2")
+    n1, n2 = 1 + rng.below(4), 1 + rng.below(4)
+
+    def rscript(other):
+        acts = []
+        for _ in range(rng.below(3)):
+            k = rng.below(10)
+            if k < 5:
+                acts.append("nx%d" % other)
+            elif k < 6:
+                acts.append("nt")
+            elif k < 7:
+                acts.append("s0m0")
+            else:
+                acts.append(rng.pick(["us", "uh", "mu", "iv"]) + str(rng.below(n1 + n2 + 1)))
+        return ",".join(acts) if acts else "-"
+
+    order = [1] * n1 + [2] * n2
+    for a in range(len(order) - 1, 0, -1):
+        c = rng.below(a + 1)
+        order[a], order[c] = order[c], order[a]
+    for sid in order:
+        b.emit("subj sub %d %d 0 %s" % (sid, rng.below(6), rscript(3 - sid)))
+    for _ in range(1 + rng.below(3)):
+        b.emit("subj notify %d %d %s" % (1 + rng.below(2), 1 + rng.below(3), gen_arg(rng, sig)))
+    finish_case(b)
+    return b.case
+
+
 # ====================================================================== oracle and generator for Observable (C16)
 
 SCALE = 1 << 20
@@ -903,7 +946,13 @@ def run_subj_streams(bins, cases):
             impl[i] = o
 
     def work_model():
-        model[0] = seqtie.run_stream(None, cases, "subj reset", is_driver=True)
+        # cross-subject rounds (`nx`) are outside the one-Subject model: those cases are compared oracle <-> code only
+        idx = [i for i, c in enumerate(cases) if not any(",nx" in l or " nx" in l for l in c)]
+        outs = seqtie.run_stream(None, [cases[i] for i in idx], "subj reset", is_driver=True)
+        full = [subj_expected(c) if any(",nx" in l or " nx" in l for l in c) else None for c in cases]
+        for i, o in zip(idx, outs):
+            full[i] = o
+        model[0] = full
 
     ths = [threading.Thread(target=work_impl, args=(s, idxs)) for s, idxs in groups.items()] + [threading.Thread(target=work_model)]
     for t in ths:
@@ -1020,6 +1069,8 @@ def tie_subject(prop, tier, seed, res):
         # callbacks that unsubscribe / subscribe / invalidate during the round (the generator of C10)
         for i in range(n // 5):
             cases.append(gen_c10_random(rng, i % NSIG, 4, 3))
+        for i in range(n // 10):
+            cases.append(gen_cross_case(rng, i % NSIG))
     else:
         cases += gen_c10_exhaustive(tier)
         nex = len(cases) - ncorpus
@@ -1027,6 +1078,8 @@ def tie_subject(prop, tier, seed, res):
         n = 10000 if tier == "quick" else 100000
         for i in range(n):
             cases.append(gen_c10_random(rng, i % NSIG, 5, 4))
+        for i in range(n // 10):
+            cases.append(gen_cross_case(rng, i % NSIG))
     exp = [subj_expected(c) for c in cases]
     impl, model = run_subj_streams(bins, cases)
 
